@@ -56,7 +56,7 @@ def shards(tier):
 def floors(tier):
     f = {"positive": 20000, "negative": 10000, "through_validator": 1000, "hostile_first": 300,
          "hostile_middle": 300, "hostile_last": 300, "distinct_nontrivial": 10000, "short_lived_resolutions": 5000, "whole_documents_through_resolver": 100, "document_named_like_a_metaschema": 150, "document_named_like_a_store_entry": 80,
-         "reused_validator_pointer_sequences": 500, "member_as_referrer_lookups": 10000, "pointers_after_validate_raised_and_exception_kept": 1500}
+         "reused_validator_pointer_sequences": 500, "member_as_referrer_lookups": 10000, "pointers_after_validate_raised_and_exception_kept": 1500, "pointers_under_other_conversion_limits": 1000}
     f["neg:index_beyond_int_conversion_limit"] = 40
     for k in ("missing_key", "index_eq_len", "index_gt_len", "non_index_token", "token_on_scalar", "token_on_string",
               "disguised_in_range_index"):
@@ -326,6 +326,37 @@ def member_as_referrer(ctx, rng, doc, n):
                     ctx.violation("positive-wrong-value", case, "returned %r instead of the addressed %r" % (got, target))
 
 
+def under_other_conversion_limits(ctx, rng, doc):
+    """The interpreter's int<->str conversion limit is a setting of the process (sys.set_int_max_str_digits, 0 = disabled,
+    or far above / at the minimum): pointers through arrays address the same elements whatever it is set to, and it is
+    what it was afterwards."""
+    import sys
+    R = resolver()
+    locs = [(p, t) for p, t in locations(doc) if any(isinstance(x, int) for x in p)]
+    if not locs:
+        return
+    before = sys.get_int_max_str_digits()
+    for limit in (0, 640, 100000):
+        sys.set_int_max_str_digits(limit)
+        try:
+            for path, target in rng.sample(locs, min(4, len(locs))):
+                frag = U.fragment_for(tokens(path))
+                ctx.count("pointers_under_other_conversion_limits")
+                try:
+                    got = R.resolve_fragment(doc, frag)
+                except Exception as e:
+                    ctx.violation("positive-raised", {"document": doc, "fragment": frag, "path": list(path), "int_max_str_digits": limit},
+                                  "with sys.set_int_max_str_digits(%d): %s: %s" % (limit, type(e).__name__, str(e)[:100]))
+                    continue
+                if got is not target:
+                    ctx.violation("positive-wrong-value", {"document": doc, "fragment": frag, "path": list(path), "int_max_str_digits": limit},
+                                  "with sys.set_int_max_str_digits(%d): returned %r instead of the addressed %r" % (limit, got, target))
+            if sys.get_int_max_str_digits() != limit:
+                ctx.violation("positive-other-exception", {"document": doc, "int_max_str_digits": limit}, "the limit was %d before the lookups and is %d after" % (limit, sys.get_int_max_str_digits()))
+        finally:
+            sys.set_int_max_str_digits(before)
+
+
 def reused_validator_pointers(ctx, rng, doc):
     """One validator object whose references are pointers into the same document, some addressing a marker schema and
     one addressing nothing: a pointer that failed cleanly (RefResolutionError) must leave the next ones resolving to
@@ -495,6 +526,8 @@ def run(ctx):
             reused_validator_pointers(ctx, rng, doc)
         if i % 4 == 2:
             member_as_referrer(ctx, rng, doc, i)
+        if i % 4 == 3:
+            under_other_conversion_limits(ctx, rng, doc)
         if i % 400 == 0:
             ctx.sample({"document": doc, "fragments": [U.fragment_for(tokens(p)) for p, _ in list(locations(doc))[:4]]})
 
@@ -502,6 +535,24 @@ def run(ctx):
 def replay(ctx, rec):
     c = rec["case"]
     R = resolver()
+    if "int_max_str_digits" in c and "fragment" in c:
+        import sys
+        before = sys.get_int_max_str_digits()
+        sys.set_int_max_str_digits(c["int_max_str_digits"])
+        try:
+            target = c["document"]
+            for p in c["path"]:
+                target = target[p]
+            try:
+                got = R.resolve_fragment(c["document"], c["fragment"])
+            except Exception as e:
+                ctx.violation("positive-raised", c, "%s: %s" % (type(e).__name__, str(e)[:100]))
+                return
+            if got is not target:
+                ctx.violation("positive-wrong-value", c, "returned %r instead of the addressed %r" % (got, target))
+        finally:
+            sys.set_int_max_str_digits(before)
+        return
     if c.get("member_as_referrer"):
         doc = c["document"]
         member = doc
